@@ -18,6 +18,7 @@ type tickSvc struct {
 	mu    sync.Mutex
 	t0    time.Time
 	polls []time.Duration
+	slow  time.Duration // how long the service takes to answer a poll request
 }
 
 func (s *tickSvc) Get(ctx context.Context, name string) (*api.SecretValue, error) {
@@ -28,6 +29,15 @@ func (s *tickSvc) GetIfChanged(ctx context.Context, name string, old api.SecretV
 	s.mu.Lock()
 	s.polls = append(s.polls, time.Since(s.t0))
 	s.mu.Unlock()
+	if s.slow > 0 {
+		// a slow peer: the round of requests takes a fifth of the interval; the polls still come
+		// once per interval
+		select {
+		case <-time.After(s.slow):
+		case <-ctx.Done():
+			return nil, ctx.Err()
+		}
+	}
 	return nil, api.ErrValueNotChanged
 }
 
@@ -50,6 +60,9 @@ func traceCadence(t *testing.T, o opts) {
 		iv := intervals[(h+int(o.seed))%len(intervals)]
 		synctest.Test(t, func(t *testing.T) {
 			svc := &tickSvc{}
+			if (h/len(intervals))%2 == 1 {
+				svc.slow = iv / 5
+			}
 			st, err := setec.NewStore(context.Background(), setec.StoreConfig{Client: svc, Secrets: []string{"a"}, PollInterval: iv, Logf: func(string, ...any) {}})
 			if err != nil {
 				t.Fatal(err)
@@ -65,7 +78,7 @@ func traceCadence(t *testing.T, o opts) {
 			}
 			svc.mu.Unlock()
 			st.Close()
-			emit("cadence\tinterval=%d\tpolls=%s", int64(iv), strings.Join(ps, ","))
+			emit("cadence\tinterval=%d\tslow=%d\tpolls=%s", int64(iv), int64(svc.slow), strings.Join(ps, ","))
 		})
 	}
 }
